@@ -110,7 +110,7 @@ impl Interp {
     fn local(&mut self, l: &syn::Local, ctx: Option<(&str, &'static str, &BTreeMap<String, String>)>) {
         let Some(init) = &l.init else { return };
         let e = &*init.expr;
-        let t = sm::tsc(e);
+        let t = sm::tsx(e);
         // destructuring of self
         if let syn::Pat::Struct(ps) = &l.pat {
             if t == "self" {
@@ -238,7 +238,7 @@ impl Interp {
             match s {
                 syn::Stmt::Local(l) => {
                     let Some(init) = &l.init else { continue };
-                    let t = sm::tsc(&init.expr);
+                    let t = sm::tsx(&init.expr);
                     let mut ids = vec![];
                     sm::pat_idents(&l.pat, &mut ids);
                     // let (arg, default) = x.to_arg() | x.into_arg()
@@ -412,7 +412,7 @@ pub fn run(cx: &mut Ctx) {
         }
     }
     // From<Arguments> for PythonArguments delegates
-    let t = sm::tsc(&g.file);
+    let t = sm::tsx(&g.file);
     if t.contains("impl<R>From<Arguments<R>>forPythonArguments<R>{fnfrom(arguments:Arguments<R>)->Self{arguments.into_python_arguments()}}") {
         cx.ok("C14.F1", "From<Arguments> for PythonArguments = into_python_arguments");
     } else {
